@@ -225,6 +225,94 @@ func (s Segment) Remove() error {""")]),
 	default:
 		return 0
 	}""")]),
+ ("writer.Delete: duplicated tails merged correctly", [("log_writer.go", """	nseg := rs.GetNewSegment()
+	if nseg != w.segment {
+		// the starting offset of the new segment is different
+		if err := rs.Rename(nseg); err != nil {
+			return nil, nil, err
+		}
+
+		if err := w.segment.Remove(); err != nil {
+			return nil, nil, err
+		}
+
+		// first move the replacement
+		nextOffset, nextTime := w.index.getNext()
+		if rs.DeletedMessages[len(rs.DeletedMessages)-1].Offset == w.index.getLastOffset() {
+			rdr := openReader(nseg, w.params, w.version, false)
+			wrt, err := openWriter(w.segment.NewAt(nextOffset), w.params, w.version, nextTime)
+			return wrt, rdr, err
+		} else {
+			wrt, err := openWriter(nseg, w.params, w.version, nextTime)
+			return wrt, nil, err
+		}
+	}
+
+	if err := rs.Override(w.segment); err != nil {
+		return nil, nil, err
+	}
+
+	nextOffset, nextTime := w.index.getNext()
+	if rs.DeletedMessages[len(rs.DeletedMessages)-1].Offset == w.index.getLastOffset() {
+		rdr := openReader(w.segment, w.params, w.version, false)
+		wrt, err := openWriter(w.segment.NewAt(nextOffset), w.params, w.version, nextTime)
+		return wrt, rdr, err
+	} else {
+		wrt, err := openWriter(w.segment, w.params, w.version, nextTime)
+		return wrt, nil, err
+	}
+}""", """	nseg := rs.GetNewSegment()
+	if nseg != w.segment {
+		// the starting offset of the new segment is different, first move the replacement
+		if err := rs.Rename(nseg); err != nil {
+			return nil, nil, err
+		}
+		if err := w.segment.Remove(); err != nil {
+			return nil, nil, err
+		}
+	} else if err := rs.Override(w.segment); err != nil {
+		return nil, nil, err
+	}
+
+	nextOffset, nextTime := w.index.getNext()
+	if rs.DeletedMessages[len(rs.DeletedMessages)-1].Offset == w.index.getLastOffset() {
+		rdr := openReader(nseg, w.params, w.version, false)
+		wrt, err := openWriter(w.segment.NewAt(nextOffset), w.params, w.version, nextTime)
+		return wrt, rdr, err
+	}
+	wrt, err := openWriter(nseg, w.params, w.version, nextTime)
+	return wrt, nil, err
+}""")]),
+ ("DeleteMultiOffsets implemented on top of DeleteMulti", [("delete.go", """	var remainingOffsets = maps.Clone(offsets)
+	var deletedOffsets = map[int64]struct{}{}
+	var deletedSize int64
+
+	for len(remainingOffsets) > 0 {
+		deleted, size, err := l.Delete(remainingOffsets)
+		switch {
+		case err != nil:
+			return deletedOffsets, deletedSize, err
+		case len(deleted) == 0:
+			return deletedOffsets, deletedSize, nil
+		}
+
+		deletedSize += size
+		for _, msg := range deleted {
+			deletedOffsets[msg.Offset] = struct{}{}
+			delete(remainingOffsets, msg.Offset)
+		}
+
+		if err := backoff(ctx); err != nil {
+			return deletedOffsets, deletedSize, err
+		}
+	}
+
+	return deletedOffsets, deletedSize, nil""", """	msgs, deletedSize, err := DeleteMulti(ctx, l, offsets, backoff)
+	var deletedOffsets = map[int64]struct{}{}
+	for _, msg := range msgs {
+		deletedOffsets[msg.Offset] = struct{}{}
+	}
+	return deletedOffsets, deletedSize, err""")]),
 ]
 
 def main():
